@@ -238,6 +238,21 @@ CORPUS = [
      ("debug", ("call", "f", (), (), ("list", (("num", F(1)), ("num", F(2))), "s", False)))),
     # N4 (known): quoted strings keep their quotes in @debug / @warn
     (("debug", ("str", "foo", True)), ("warn", ("str", "bar", True))),
+    # seeded change m2 (stale values in ragged @each destructuring): the missing position is null
+    (("each", ("m", "n"), ("list", (("list", (("num", F(5)), ("num", F(7))), "s", False), ("num", F(8))), "c", False),
+      (("debug", ("var", "n")),)),),
+    # seeded change m3 (@return inside @for only left the iteration)
+    (("func", "rl", ((("k", None),), None), (("for", "i", ("num", F(-2)), ("num", F(1)), False, (("ret", ("var", "i")),)),)),
+     ("debug", ("call", "rl", (("num", F(-2)),), (), None))),
+    # … and in a descending @for nested in @each, @while
+    (("func", "rl", ((), None), (
+        ("each", ("e",), ("list", (("num", F(1)), ("num", F(2))), "c", False), (
+            ("for", "i", ("num", F(3)), ("num", F(0)), True, (
+                ("debug", ("list", (("var", "e"), ("var", "i")), "s", False)),
+                ("ifs", ((("bin", "eq", ("var", "i"), ("num", F(2))), (("ret", ("bin", "mul", ("var", "e"), ("var", "i"))),)),), None))),
+            ("debug", ("str", "after", False)))),
+        ("ret", ("num", F(-1))))),
+     ("debug", ("call", "rl", (), (), None))),
     # precedence / unary minus spellings that once confused the printer
     (("debug", ("list", (("num", F(5)), ("bin", "add", ("neg", ("num", F(-6))), ("num", F(3)))), "s", False)),),
     (("debug", ("neg", ("call", "length", (("list", (), "u", False),), (), None))),),
